@@ -67,13 +67,18 @@ func addInterrupts(t *rapid.T, sp *gkit.Spec, weight int) {
 }
 
 func genHist(t *rapid.T) CaseHist {
+	return genHistModes(t, []string{"pregel", "pregel", "dag", "workflow"}, true)
+}
+
+// genHistModes: histories over top-level graphs of the given modes (deep = the directed three-level scenario may be drawn).
+func genHistModes(t *rapid.T, modes []string, deep bool) CaseHist {
 	cfg := gkit.GenCfg{MaxNodes: 6, Depth: 2, Cycles: true, NoFailMix: true, State: true, PS: true,
 		SubModes: []string{"pregel", "pregel", "dag", "workflow"}}
 	if vkit.Thorough() {
 		cfg.MaxNodes = 8
 	}
 	var c CaseHist
-	if rapid.IntRange(0, 9).Draw(t, "deepLoop") == 0 {
+	if deep && rapid.IntRange(0, 9).Draw(t, "deepLoop") == 0 {
 		// directed: three graph levels; the middle graph loops through the innermost graph node, and the
 		// innermost graph (stateful or not) is interrupted inside
 		inner := &gkit.Spec{Mode: "pregel", In: "S", Out: "S", State: rapid.Bool().Draw(t, "innerState"),
@@ -103,7 +108,7 @@ func genHist(t *rapid.T) CaseHist {
 			inner.IntAfter = []string{inner.Nodes[0].Key}
 		}
 	} else {
-		mode := []string{"pregel", "pregel", "dag", "workflow"}[rapid.IntRange(0, 3).Draw(t, "mode")]
+		mode := modes[rapid.IntRange(0, len(modes)-1).Draw(t, "mode")]
 		c = CaseHist{Spec: gkit.GenTop(t, mode, cfg)}
 		c.Input = gkit.GenInput(t, c.Spec.In)
 		addInterrupts(t, c.Spec, rapid.SampledFrom([]int{10, 25, 25, 50}).Draw(t, "intWeight"))
@@ -965,4 +970,57 @@ func TestC12Graph(t *testing.T) {
 
 func TestC12GraphReplay(t *testing.T) {
 	vkit.Replay(t, "C12", checkC12Graph)
+}
+
+// ---- C01 / C02, resume parts: the step semantics hold across interrupt and resume ----
+// C01: any-predecessor graphs - a value sent before an interrupt is received by its target in the step after
+// the resume; C02: all-predecessor graphs and workflows - a node skipped (or a predecessor finished) before an
+// interrupt stays so after the resume.  Invoke calls only; oracle = the history oracle (the interrupted history
+// equals the uninterrupted run: output, executions, state), which for these modes is the reference model of
+// C01 / C02 applied to the whole history.
+
+func genHistInvoke(modes []string) func(t *rapid.T) CaseHist {
+	return func(t *rapid.T) CaseHist {
+		c := genHistModes(t, modes, false)
+		c.Paradigms = []string{"invoke"}
+		c.NoID = false
+		return c
+	}
+}
+
+func checkHistFor(prop string, modes map[string]bool) func(c CaseHist) (*vkit.Failure, vkit.Meta) {
+	return func(c CaseHist) (*vkit.Failure, vkit.Meta) {
+		if c.Spec == nil || !modes[c.Spec.Mode] || len(c.Paradigms) != 1 || c.Paradigms[0] != "invoke" {
+			return nil, vkit.Meta{} // not a case of this part
+		}
+		f, m := checkHistory(c, "C05")
+		if f != nil {
+			f.Msg = "across interrupt and resume: " + f.Msg
+			f.Sig = "resume:" + f.Sig
+		}
+		nt := false
+		for _, l := range m.Labels {
+			if strings.HasPrefix(l, "interrupts:") && l != "interrupts:0" {
+				nt = true
+			}
+		}
+		m.NonTrivial = nt
+		return f, m
+	}
+}
+
+func TestC01Resume(t *testing.T) {
+	vkit.Prop(t, vkit.NewRecorder("C01"), genHistInvoke([]string{"pregel"}), checkHistFor("C01", map[string]bool{"pregel": true}))
+}
+
+func TestC01ResumeReplay(t *testing.T) {
+	vkit.Replay(t, "C01", checkHistFor("C01", map[string]bool{"pregel": true}))
+}
+
+func TestC02Resume(t *testing.T) {
+	vkit.Prop(t, vkit.NewRecorder("C02"), genHistInvoke([]string{"dag", "workflow"}), checkHistFor("C02", map[string]bool{"dag": true, "workflow": true}))
+}
+
+func TestC02ResumeReplay(t *testing.T) {
+	vkit.Replay(t, "C02", checkHistFor("C02", map[string]bool{"dag": true, "workflow": true}))
 }
